@@ -25,7 +25,9 @@ BUDGET = {"quick": (16, 200), "thorough": (16, 4000)}
 
 @st.composite
 def _strategy(draw):
-    spec = draw(gp.case(max_res=7, link_bias=True, routes=("json",), min_res=2))
+    mixed = draw(st.integers(0, 2)) == 0
+    spec = draw(gp.case(max_res=7, link_bias=True, routes=("json",), min_res=2, mixed_nrexcl=mixed,
+                        f22_safe=True, min_blocks=2 if mixed else 1))
     n = len(spec["graph"]["nodes"])
     ne = len(spec["graph"]["edges"])
     t = {}
@@ -43,7 +45,13 @@ def _strategy(draw):
     if "files" in kinds:
         t["split"] = draw(st.sampled_from(["links_apart", "one_per_block", "reverse"]))
     if "history" in kinds:
-        t["history"] = [draw(gp.case(max_res=4, link_bias=True)) for _ in range(draw(st.integers(1, 2)))]
+        t["history"] = [draw(gp.case(max_res=4, link_bias=True)) for _ in range(draw(st.integers(0, 2)))]
+        # runs with the *same* force-field files but another residue graph (state kept per definition
+        # set, e.g. a cache, only leaks between such runs)
+        names = [b["name"] for b in spec["blocks"]]
+        t["history_same_ff"] = [draw(gp.residue_graph(names, max_res=5, routes=("json",), min_res=1,
+                                                      name_modes=("random", "block")))[0]
+                                for _ in range(draw(st.integers(1, 2)))]
     spec["transform"] = t
     return spec
 
@@ -174,6 +182,19 @@ def check(spec, ctx):
         except Exception:
             pass
         applied.append("history")
+    for num, graph in enumerate(spec["transform"].get("history_same_ff", [])):
+        hspec = copy.deepcopy(spec)
+        hspec["graph"] = graph
+        hspec["route"] = "json"
+        hdir = ctx.dir / f"same{num}"
+        hdir.mkdir()
+        hctx = core.Ctx(ctx.dir, f"same{num}")
+        hctx.dir = hdir
+        try:
+            gp.run_gen_params(hspec, hctx, outname="hist.itp", capture=False)
+        except Exception:
+            pass
+        applied.append("history_same_ff")
     # transformed run
     tdir = ctx.dir / "transformed"
     tdir.mkdir()
